@@ -111,12 +111,16 @@ type c04Op struct {
 type c04Case struct {
 	Links []c04Link `json:"links"`
 	Ops   []c04Op   `json:"ops"`
+	// EarlyRequests registers the standing link requests while the controllers are attached but their
+	// transports are not constructed yet (start-up / restart window)
+	EarlyRequests bool `json:"early_requests"`
 }
 
 var localKeys = []int{0, 5}
 
 func genC04(t *rapid.T) c04Case {
 	var c c04Case
+	c.EarlyRequests = rapid.Bool().Draw(t, "early")
 	nl := rapid.IntRange(2, 5).Draw(t, "nlinks")
 	for i := 0; i < nl; i++ {
 		c.Links = append(c.Links, c04Link{
@@ -141,12 +145,20 @@ func (l c04Link) uuid() uint64 { return uint64(2000 + l.Node*100 + l.Remote*10 +
 var c04Protos = []string{"verif/p0", "verif/p1", "verif/é"}
 
 func checkC04(c c04Case) (o vstat.Outcome) {
-	r, err := newRig(localKeys...)
+	r, release, err := newRigGated(localKeys...)
 	if err != nil {
 		o.Discard = true
 		return
 	}
 	defer r.close()
+	if !c.EarlyRequests {
+		if err := release(); err != nil {
+			o.Discard = true
+			return
+		}
+	} else {
+		o.Classes = append(o.Classes, "requests-before-transport-is-up")
+	}
 	sink := &streamSink{}
 	rel, err := r.tb.Bus.AddController(r.ctx, sink, nil)
 	if err != nil {
@@ -154,22 +166,6 @@ func checkC04(c c04Case) (o vstat.Outcome) {
 		return
 	}
 	defer rel()
-	// fake links
-	links := make([]*fakes.Link, len(c.Links))
-	for i, l := range c.Links {
-		n := r.nodes[l.Node]
-		fl := fakes.NewLink(fmt.Sprintf("l%d", i), l.uuid(), n.peerID, gen.PeerID(l.Remote))
-		fl.TptID = n.tpt.uuid
-		node := n
-		fl.SetOnClose(func(l *fakes.Link) { node.handler.HandleLinkLost(l) })
-		links[i] = fl
-	}
-	defer func() {
-		for _, fl := range links {
-			fl.SetOnClose(nil)
-			_ = fl.Close()
-		}
-	}()
 	// watchers for all (src, dst) request shapes
 	type wkey struct{ src, dst int } // src -1 = empty
 	srcs := []int{-1, 0, 5, 1}
@@ -192,6 +188,29 @@ func checkC04(c c04Case) (o vstat.Outcome) {
 			watchers[wkey{s, d}] = w
 		}
 	}
+	if c.EarlyRequests {
+		time.Sleep(5 * time.Millisecond)
+		if err := release(); err != nil {
+			o.Discard = true
+			return
+		}
+	}
+	// fake links
+	links := make([]*fakes.Link, len(c.Links))
+	for i, l := range c.Links {
+		n := r.nodes[l.Node]
+		fl := fakes.NewLink(fmt.Sprintf("l%d", i), l.uuid(), n.peerID, gen.PeerID(l.Remote))
+		fl.TptID = n.tpt.uuid
+		node := n
+		fl.SetOnClose(func(l *fakes.Link) { node.handler.HandleLinkLost(l) })
+		links[i] = fl
+	}
+	defer func() {
+		for _, fl := range links {
+			fl.SetOnClose(nil)
+			_ = fl.Close()
+		}
+	}()
 	// model
 	type cur struct{ idx int }
 	current := map[uint64]int{}
